@@ -342,6 +342,50 @@ func checkRecoverDiscipline(r *Run, prog *Program, pfx string) {
 	}
 	// parse returns p.errs.err() on the ok path and adds an error on the not-ok path if none was recorded
 	checkParseReturns(r, prog, parse, pfx)
+	unprotectedPanicSites(r, prog, parse, recoverFn, pfx)
+}
+
+// unprotectedPanicSites: what runs outside the protection of the deferred recover must not panic implicitly either — the
+// entry points and the constructor (before the defer is installed) and the recovering function with everything it calls
+// to record the error (a panic there escapes Parse). The C09 site analysis (index, slice, conversion, assertion) is run on
+// exactly these functions.
+func unprotectedPanicSites(r *Run, prog *Program, parse, recoverFn *ssa.Function, pfx string) {
+	a := FindAnchors(prog)
+	if len(a.Missing) != 0 || prog.GrammarSSA == nil {
+		return
+	}
+	roots := map[*ssa.Function]bool{}
+	add := func(f *ssa.Function) {
+		if f != nil && len(f.Blocks) > 0 {
+			roots[f] = true
+		}
+	}
+	add(recoverFn)
+	np := prog.GrammarSSA.Func("newParser")
+	add(np)
+	add(a.Parse)
+	for _, f := range prog.ModuleFuncs() {
+		if f.Pkg != prog.GrammarSSA {
+			continue
+		}
+		if np != nil && ctorPart(prog, np, f) {
+			add(f)
+		}
+	}
+	// everything the recovering function can reach inside the module
+	if recoverFn != nil {
+		reach, _ := prog.Reachable(recoverFn)
+		for f := range reach {
+			if prog.InModule(f) && f.Pkg == prog.GrammarSSA {
+				add(f)
+			}
+		}
+	}
+	r.importing = "C09"
+	c09SiteKinds = map[string]bool{"index": true, "slice": true, "type-assert": true, "division": true, "explicit-panic": true, "map-store": true}
+	checkPanicSites(r, prog, a, "c09", roots, nil, false, 3)
+	c09SiteKinds = nil
+	r.importing = ""
 }
 
 func callsBuiltin(fn *ssa.Function, name string) bool {
